@@ -19,6 +19,7 @@ CONFIGS = {
     "min1": {"min": 1}, "min2": {"min": 2},
     "tol0": {"tol_n": 0}, "tol1": {"tol_n": 1},
     "pct0": {"tol_pct": 0}, "pct50": {"tol_pct": 50},
+    "tol2pct30": {"tol_n": 2, "tol_pct": 30}, "tol0pct50": {"tol_n": 0, "tol_pct": 50},   # both tolerances: either may bind
     "min1tol1": {"min": 1, "tol_n": 1}, "min2tol0": {"min": 2, "tol_n": 0}, "min1pct50": {"min": 1, "tol_pct": 50},
 }
 
@@ -305,9 +306,9 @@ def space(tier):
 
 simcheck.install(globals(), "C09", [judge], space,
                  "parallel with 0..3 branches (every succeed/fail assignment x completion orders via distinct virtual "
-                 "finish times) and homogeneous maps of 0..3 items x 14 completion configs (none, empty, first_successful, "
+                 "finish times) and homogeneous maps of 0..3 items x 16 completion configs (none, empty, first_successful, "
                  "all_completed, all_successful, min_successful 1/2, tolerated count 0/1, tolerated percentage 0/50, "
-                 "three combinations) x max_concurrency {None,1,2}; blocked and parked branches next to deciders; 18 programs whose "
+                 "count+percentage with either one binding, three other combinations) x max_concurrency {None,1,2}; blocked and parked branches next to deciders; 18 programs whose "
                  "branches finish at the same instant under every schedule with <=1 (quick) / <=2 (thorough) preemption, six (quick) / "
                  "all (thorough) of them also with one preemption at any line of concurrency/executor.py; each "
                  "program continues with a wait so that a second invocation replays the result; thorough adds policies "
